@@ -203,7 +203,8 @@ theorem run_succ (s : Song) (d : DataInfo) (n : Nat) (ih : WriterInv s d n) (ste
           cases t1 with
           | none => rfl
           | some it =>
-            simp only [Option.map, ih.hook]
+            have ht : (normItem it).ev.type = it.ev.type := by simp only [normItem, normE_type]
+            simp only [Option.map, ih.hook, ht]
             cases Mds.hook s d n c w it with
             | error x => rfl
             | ok r => exact ihk root r.1 r.2 st'
